@@ -27,7 +27,7 @@ let string_of_rend = function
    requested schedule; the result must agree because the outcome is schedule independent *)
 let seq inp obs : string option =
   match inp, obs with
-  | ["C17S"; c; limit; data; sched; e], [msgs; fin] ->
+  | "C17S" :: c :: limit :: data :: sched :: e :: _, [msgs; fin] ->
     let l = bytes_of_hex data in
     let s = { Reader.rem = l; sched = nats_of sched; eofWithData = (e = "1") } in
     let (ms, fe) = Codec.recv_all (nat_of_int (Stdlib.List.length l + 3)) (codec_of c) (nat_of_int (int_of_string limit)) [] s in
